@@ -2,7 +2,7 @@
 import re
 
 from .core import (Prov, bool_cond_edges, callee_is, discr_cond_edges, has_origin, origin_strs, result_switches,
-                   root_local, sites_star, fields_of, const_value)
+                   root_local, sites_star, fields_of, const_value, equal_edges)
 from .invokes import Invokes
 from . import collector as coll
 
@@ -250,8 +250,8 @@ def queue_handle_invariant(facts, prov):
     if not builders:
         return False, "no construction of SpanHandle found"
     for g, b, s in builders:
-        if g.path != SQ + "::start_span":
-            return False, "SpanHandle constructed outside start_span: %s" % g.path
+        if not g.path.startswith(SQ + "::"):
+            return False, "SpanHandle constructed outside SpanQueue: %s" % g.path
         src = prov.of_operand(g, s["rv"]["ops"][0])
         from_len = any(v[0] == "call" and re.search(r"Vec::<T, A>::len$", v[1]) for o in src for v in o.via) and \
             has_origin(src, kind="param", key=1, path_suffix=(".span_queue",))
@@ -279,12 +279,10 @@ def queue_handle_invariant(facts, prov):
             return False, "SpanLine::%s not found" % name
         calls = g.calls_re(r"SpanQueue::%s$" % name, cleanup=False)
 
-        def epoch_eq(o):
-            return any(v[0] == "binop" and v[1] == "Eq" for v in o.via) and o.path and o.path[-1] in (".epoch", ".span_line_epoch")
-        edges = bool_cond_edges(g, prov, epoch_eq, True)
+        edges = equal_edges(g, prov, lambda o: bool(o.path) and o.path[-1] in (".epoch", ".span_line_epoch"))
         if not calls or not edges or not g.guarded(calls, edges):
             return False, "SpanLine::%s does not compare epochs before using the handle" % name
-    return True, "handles built only in start_span (index = len before push), span_queue never shrinks, epochs compared"
+    return True, "handles built only inside SpanQueue with index = len before a push, span_queue never shrinks, epochs compared"
 
 
 def epoch_guarded_callers(facts, prov, callee_path):
@@ -295,9 +293,7 @@ def epoch_guarded_callers(facts, prov, callee_path):
             if g.blocks[b]["cleanup"]:
                 continue
 
-            def epoch_eq(o):
-                return any(v[0] == "binop" and v[1] == "Eq" for v in o.via) and o.path and o.path[-1] in (".epoch", ".span_line_epoch")
-            edges = bool_cond_edges(g, prov, epoch_eq, True)
+            edges = equal_edges(g, prov, lambda o: bool(o.path) and o.path[-1] in (".epoch", ".span_line_epoch"))
             sites.append((g, b, bool(edges) and g.guarded([b], edges)))
     return sites
 
